@@ -226,6 +226,8 @@ class ActorHarness:
         self.published: list[dict[str, Any]] = []      # bounds published (per group)
         self.actor: Any = None
         self._tasks: list[Any] = []
+        self._pools: dict[Any, Any] = {}
+        self.frontend = False
 
     async def start(self) -> None:
         from frequenz.channels import Broadcast
@@ -250,6 +252,7 @@ class ActorHarness:
         self._orig_pools = {n: getattr(_data_pipeline, n) for n in ("new_battery_pool", "new_ev_charger_pool", "new_pv_pool")}
         for n in self._orig_pools:
             setattr(_data_pipeline, n, lambda *, priority, component_ids=None, **kw: FakeBoundsPool(component_ids))
+        self.frontend = sim.ch.chance("battery_pool_frontend", 0.4)
         cat_k = sim.ch.weighted("component_category", [4, 1, 1])
         category, ctype = [(ComponentCategory.BATTERY, None), (ComponentCategory.EV_CHARGER, None),
                            (ComponentCategory.INVERTER, InverterType.SOLAR)][cat_k]
@@ -309,7 +312,43 @@ class ActorHarness:
     def propose(self, g: int, p: dict[str, Any]) -> None:
         self.sim.ev("proposal", g, p["actor"], p["pref"], p["lower"], p["upper"])
         self.sim.note(f"proposal group {g} {pstr(p)}")
-        self.sim.spawn(self.prop_tx.send(mk_proposal(p, self.groups[g])))
+        if self.frontend:
+            self.sim.spawn(self._propose_through_pool(g, p))
+        else:
+            self.sim.spawn(self.prop_tx.send(mk_proposal(p, self.groups[g])))
+
+    async def _propose_through_pool(self, g: int, p: dict[str, Any]) -> None:
+        """The same proposal made the way client code makes it: through a BatteryPool's propose_power /
+        propose_charge / propose_discharge (which of the equivalent calls is used is drawn)."""
+        import types
+
+        from frequenz.sdk.timeseries._base_types import Bounds
+        from frequenz.sdk.timeseries.battery_pool import BatteryPool
+
+        key = (g, p["actor"], p["op"])
+        pool = self._pools.get(key)
+        if pool is None:
+            store = types.SimpleNamespace(_power_manager_requests_sender=self.prop_tx, _batteries=self.groups[g])
+            pool = BatteryPool(pool_ref_store=store, name=p["actor"], priority=p["prio"], set_operating_point=p["op"])  # type: ignore[arg-type]
+            pool._source_id = p["actor"]      # (the real one appends a uuid4: randomness, and irrelevant here)
+            self._pools[key] = pool
+        pref, lower, upper = p["pref"], p["lower"], p["upper"]
+        ways = ["power"]
+        if lower is None and upper is None:
+            if pref is None:
+                ways += ["charge", "discharge"]
+            elif pref >= 0:
+                ways.append("charge")
+            if pref is not None and pref <= 0:
+                ways.append("discharge")
+        way = ways[self.sim.ch.draw("propose_via", len(ways))]
+        self.sim.probe("proposal_via_battery_pool_" + way)
+        if way == "power":
+            await pool.propose_power(W(pref), bounds=Bounds(W(lower), W(upper)))
+        elif way == "charge":
+            await pool.propose_charge(W(pref))
+        else:
+            await pool.propose_discharge(None if pref is None else W(-pref))
 
     def send_result(self, kind: str, req: Any) -> None:
         from frequenz.sdk.microgrid._power_distributing import Error, PartialFailure, Success
